@@ -85,7 +85,8 @@ pub fn build_soup(soup: &Value) -> Soup {
     let mut s = Soup { cores: vec![], ncs: vec![], good_cores: vec![], good_ncs: vec![], entries: 0 };
     for seg in soup.as_array().unwrap() {
         let real = build_segment(seg);
-        s.entries += real.len() as u64;
+        // input size: AS entries and peer entries
+        s.entries += real.len() as u64 + real.iter().map(|e| e.peer_entries.len() as u64).sum::<u64>();
         let good = seg["good"].as_bool().unwrap();
         if seg["kind"].as_str().unwrap() == "core" {
             if good {
